@@ -54,6 +54,9 @@ func docKeyPaths(n *yaml.Node, prefix []string, out *[]string, depth int) {
 	case yaml.MappingNode:
 		for i := 0; i+1 < len(n.Content); i += 2 {
 			k, v := n.Content[i], n.Content[i+1]
+			if k.Kind == yaml.AliasNode && k.Alias != nil {
+				k = k.Alias // `*b:` - the key is whatever the anchor holds (e.g. the null of `&b:`)
+			}
 			if k.Tag == "!!merge" || k.Value == "<<" {
 				docKeyPaths(v, prefix, out, depth+1)
 				continue
@@ -100,6 +103,7 @@ func FuzzC16StrictYAML(f *testing.F) {
 	f.Add([]byte("name: n\narch: amd64\nversion: 1.0.0\ndeb:\n  fields:\n    Bugs: x\noverrides:\n  rpm:\n    depends: [a]\n"))
 	f.Add([]byte("base: &b\n  name: n\n<<: *b\narch: a\nversion: 1\n"))
 	f.Add([]byte("name: n\narch: a\nversion: 1\ncontents:\n- dst: /x\n  type: dir\n  file_info: {mode: 0755, owner: o}\n"))
+	f.Add([]byte("&b:\n*b:")) // an anchored null key and its alias: two null keys (recorded finding), found by this target
 	f.Fuzz(func(t *testing.T, data []byte) {
 		if len(data) > 1<<16 || strings.Contains(string(data), pathSep) {
 			return
